@@ -7,6 +7,15 @@ OPTS = {'p_avail': 0.6, 'p_opt': 0.55, 'max_layers': 5}
 
 def run(tier, seed, res, lean):
     c02.run(tier, seed + 5, res, lean, opts=OPTS, pid='C18')
+    # fields that read another OUTPUT of their own layer (`def z(y: Output)`): an input is optional only if every field that needs it,
+    # directly or through such a link, is optional (reference semantics as oracle)
+    from .. import suite_outann
+    from ..par import pmap
+    from ..runner import Violation
+    outs = pmap(suite_outann.run_shard, [(seed * 331 + i + 2, 12 if tier == 'quick' else 100) for i in range(16)])
+    for p in [p for o in outs for p in o[1]][:4]:
+        res.violations.append(Violation('c18-output-annotation', p['msg'][:400], {'suite': 'S-OUTANN', **p}))
+    res.coverage['output_annotation_stacks'] = {k: sum(o[0][k] for o in outs) for k in (outs[0][0] if outs else {})}
     res.coverage['rule'] = ('as S-BAG (see C02) with 55% of the fields marked @optional and 40% of the arguments drawn from names '
                             'the prefix may not expose (missing upstream names), cache layers (which mark what they touch optional), '
                             'used / unused private parameters and inherited pass-throughs of the same name; observed additionally: '
